@@ -11,6 +11,7 @@ from fractions import Fraction
 from itertools import product
 
 from ..common import Result, sut, digest
+from ..taps import InjectedFault
 
 ID = "C07"
 RULE = ("random configurations: overall degree function from gcmpy's own distributions or a random positive table "
@@ -128,7 +129,13 @@ def make_fp(cfg, asked):
 
     def fp(x):
         asked.append(x)
+        if fp.fault is not None:
+            fp.fault -= 1
+            if fp.fault <= 0:
+                fp.fault = None
+                raise InjectedFault("raised by the caller's degree function")
         return float(base(x))
+    fp.fault = None
     return fp, base
 
 
@@ -170,7 +177,19 @@ def check_config(res, cfg, keep=None):
     if isinstance(jdd, dict) and cfg.get("recreate"):
         # history on one loader: building the table again must give the same table
         first = dict(jdd)
-        for _ in range(cfg["recreate"]):
+        for it in range(cfg["recreate"]):
+            if cfg["recreate"] == 2 and it == 0:
+                # injected fault: the table is being rebuilt when the caller's degree function raises (at its 3rd call); the caller
+                # catches it and builds the table again
+                fp.fault = 3
+                try:
+                    obj.create_jdd()
+                    res.count("rebuilds_with_a_fault_that_never_fired")
+                except InjectedFault:
+                    res.count("rebuilds_aborted_by_a_raising_degree_function")
+                except Exception:
+                    res.count("rebuilds_aborted_otherwise")
+                fp.fault = None
             sut("create_jdd (again)", obj.create_jdd)
             res.count("recreate_checks")
         jdd = sut("read .jdd", lambda: obj.jdd)
